@@ -137,3 +137,16 @@ pub(crate) fn record_of(node: &'static SchemaNode<'static>) -> &'static Record<'
 
 pub(crate) static NODES_ARRAY_LONG: [SchemaNode<'static>; 2] =
 	[SchemaNode::Array(NodeRef::from_static(&N_LONG)), SchemaNode::Long];
+pub(crate) static NODES_DURATION: [SchemaNode<'static>; 1] = [SchemaNode::Duration];
+
+// ---- record R2 { a: long, b: null, c: long }  (b is an always-null field: omittable)
+static FIELDS_ANC: [RecordField<'static>; 3] = [
+	RecordField { name: const_string(b"a"), schema: NodeRef::from_static(&N_LONG) },
+	RecordField { name: const_string(b"b"), schema: NodeRef::from_static(&N_NULL) },
+	RecordField { name: const_string(b"c"), schema: NodeRef::from_static(&N_LONG) },
+];
+pub(crate) static RECORD_ANC: SchemaNode<'static> = SchemaNode::Record(Record {
+	fields: const_vec(&FIELDS_ANC),
+	name: anon_name(),
+	per_name_lookup: empty_map(),
+});
